@@ -73,9 +73,25 @@ fn code<T>(r: &Result<tonic::Response<T>, tonic::Status>) -> String {
 
 impl Kc {
     fn connect(port: u16) -> Result<Kc, String> {
-        let rt = tokio::runtime::Builder::new_current_thread().enable_all().build().unwrap();
-        let c = rt.block_on(async { KyroDbServiceClient::connect(format!("http://127.0.0.1:{port}")).await }).map_err(|e| format!("{e}"))?;
-        Ok(Kc { rt, c })
+        // connect + warm-up with retry: a loaded machine can reset a fresh HTTP/2 connection; the
+        // warm-up request carries no key, so any gRPC status (UNAUTHENTICATED) proves the channel
+        let mut last = String::new();
+        for attempt in 0..5u64 {
+            let rt = tokio::runtime::Builder::new_current_thread().enable_all().build().unwrap();
+            match rt.block_on(async { KyroDbServiceClient::connect(format!("http://127.0.0.1:{port}")).await }) {
+                Ok(c) => {
+                    let mut k = Kc { rt, c };
+                    let r = k.rt.block_on(k.c.query(req(QueryRequest { doc_id: 1, include_embedding: false, namespace: String::new() }, None, false)));
+                    match r {
+                        Err(s) if s.code() == tonic::Code::Unknown || s.code() == tonic::Code::Unavailable => last = format!("warm-up: {:?}: {}", s.code(), s.message()),
+                        _ => return Ok(k),
+                    }
+                }
+                Err(e) => last = format!("{e}"),
+            }
+            std::thread::sleep(std::time::Duration::from_millis(100 * (attempt + 1)));
+        }
+        Err(last)
     }
     fn insert(&mut self, key: Option<&str>, id: u64, v: [f32; 3], tag: &str) -> (String, bool) {
         let m = InsertRequest { doc_id: id, embedding: v.to_vec(), metadata: [("tag".to_string(), tag.to_string())].into_iter().collect(), namespace: String::new() };
